@@ -38,16 +38,16 @@ type obs struct {
 }
 
 type consumer struct {
-	e        *env
-	events   []obs // owner: the consumer task
-	ended    bool  // the range over Events() ended
-	pace     int   // 0 fast, 1 slow, 2 bursty
-	stopAt   int   // stop receiving after this many events (0 = never)
-	stopped  bool
-	route    bool // forward every frame to all other channels
-	edit     bool // edit the message and FixFrame before forwarding
-	chanIdx  map[*gomavlib.Channel]int
-	onEvent  func(o *obs)
+	e       *env
+	events  []obs // owner: the consumer task
+	ended   bool  // the range over Events() ended
+	pace    int   // 0 fast, 1 slow, 2 bursty
+	stopAt  int   // stop receiving after this many events (0 = never)
+	stopped bool
+	route   bool // forward every frame to all other channels
+	edit    bool // edit the message and FixFrame before forwarding
+	chanIdx map[*gomavlib.Channel]int
+	onEvent func(o *obs)
 }
 
 func (c *consumer) run() {
@@ -214,12 +214,12 @@ type submit struct {
 }
 
 type writer struct {
-	e     *env
-	id    int
-	subs  []submit // owner: the writer task
-	done  bool
-	inCall bool
-	calls  int
+	e         *env
+	id        int
+	subs      []submit // owner: the writer task
+	done      bool
+	inCall    bool
+	calls     int
 	foreignCh func() *gomavlib.Channel
 	closedCh  func() *gomavlib.Channel
 }
